@@ -18,3 +18,8 @@ pub open spec fn c_holds_w(c: Constraint, env: Env) -> bool {
 }
 // every numeric literal of a queued constraint is finite (C08: no NaN / infinity reaches the linear model)
 pub open spec fn c_fin(c: Constraint) -> bool { exp_fin(c.lhs) && exp_fin(c.rhs) }
+// the comparison a constraint carries, read on its own (for a bare logic assertion this is `lhs = 1`, which is how the bound analyser reads it;
+// it coincides with c_holds at assignments where the asserted expression is 0/1-valued)
+pub open spec fn c_cmp(c: Constraint, env: Env) -> bool {
+    match (sem(c.lhs, env), sem(c.rhs, env)) { (Some(l), Some(r)) => cmp_sem(c.constraint_type, l, r), _ => false }
+}
